@@ -15,7 +15,8 @@ import subprocess
 import sys
 
 HERE = os.path.dirname(os.path.dirname(os.path.abspath(__file__)))
-FLAKY = {"test_pretty_next_run_with_todays_day_should_return_due_today"}
+FLAKY = {"test_pretty_next_run_with_todays_day_should_return_due_today",  # fails 23:00-24:00 UTC on the pinned tree
+         "test_hexadecimale_timestamp_to_localtime_with_the_current_timestamp_should_return_a_time_string"}  # fails in the last half second of a minute
 
 
 def sh(cmd, **kw):
@@ -70,6 +71,9 @@ def main():
                     pr = json.loads(line)
                     if touched & set(pr["anchors"]["files"]):
                         props.append(pr["id"])
+            target = "C" + os.path.basename(d)[1:3]
+            if re.fullmatch(r"C\d\d", target) and target not in props:
+                props.append(target)  # always the property the change was written against
             out["props"] = props
         else:
             props = [p for p in a.props.split(",") if p] or [c["property_id"] for c in json.load(open(os.path.join(HERE, "MANIFEST.json")))["checks"]]
